@@ -16,7 +16,7 @@ VARIABLE vec
 Section == [kind : {"audio", "video", "application", "text"},
             mid : {"ok", "absent", "dup", "empty"},
             dir : {"sendrecv", "recvonly", "sendonly", "inactive", "absent"},
-            ssrc : {"none", "one-msid", "one-plain", "two", "nonnumeric", "overflow"},
+            ssrc : {"none", "one-msid", "one-plain", "two", "two-tracks", "nonnumeric", "overflow"},
             group : {"none", "fid2", "fid1", "fid3", "fecfr", "fid-nonnumeric", "fid-unknown"},
             rid : {"none", "one", "two-simulcast", "empty-rid", "dangling-simulcast", "paused"},
             rtpmap : {"ok", "unlisted", "none", "garbage"},
@@ -26,7 +26,7 @@ Section == [kind : {"audio", "video", "application", "text"},
 \* Most hostile input that gets far into the library is an almost valid description: a section is a
 \* valid one with at most two fields replaced by a defect class.
 FieldVals == [mid |-> {"absent", "dup", "empty"}, dir |-> {"recvonly", "sendonly", "inactive", "absent"},
-              ssrc |-> {"none", "one-plain", "two", "nonnumeric", "overflow"},
+              ssrc |-> {"none", "one-plain", "two", "two-tracks", "nonnumeric", "overflow"},
               group |-> {"fid2", "fid1", "fid3", "fecfr", "fid-nonnumeric", "fid-unknown"},
               rid |-> {"one", "two-simulcast", "empty-rid", "dangling-simulcast", "paused"},
               rtpmap |-> {"unlisted", "none", "garbage"}, extmap |-> {"malformed", "huge-id"},
@@ -42,12 +42,28 @@ Descs == UNION {[1..k -> SecSample] : k \in 1..3}
 SdpVec == [kind : {"sdp"}, secs : Descs,
            sem : {"unified", "planb", "fallback"}, me : {"both", "audioonly", "videoonly", "none"},
            bundle : {"ok", "absent", "unknown-mid"}, fp : {"session", "media", "absent", "malformed"},
-           follow : {"none", "answer", "answer+sld"}, phase : {"first", "connected"}, type : {"offer", "answer", "pranswer"}]
+           follow : {"none", "answer", "answer+sld"}, phase : {"first", "connected"}, type : {"offer", "answer", "pranswer"},
+           mirror : {FALSE}]
 \* the part of the space whose session-level frame is valid, so that the sections are what is judged
 GoodSdpVec == [kind : {"sdp"}, secs : Descs,
            sem : {"unified", "planb", "fallback"}, me : {"both", "audioonly", "videoonly", "none"},
            bundle : {"ok"}, fp : {"session", "media"},
-           follow : {"answer+sld"}, phase : {"first", "connected"}, type : {"offer"}]
+           follow : {"answer+sld"}, phase : {"first", "connected"}, type : {"offer"}, mirror : {FALSE}]
+\* hostile *answers*: the local endpoint first offers sections of the same kinds (receiving transceivers, a
+\* data channel), so that the answer's sections meet transceivers and receivers are started for what it announces
+AnsFields == {"ssrc", "group", "rid", "dir", "rtpmap"}     \* what decides which receivers are started
+AnsOverride == {o \in Override : Valid(o) /\ o[1] \in AnsFields}
+AnsOne  == {[Base(k) EXCEPT ![o[1]] = o[2]] : k \in {"audio", "video"}, o \in AnsOverride}
+AnsNear == {[[Base(k) EXCEPT ![o1[1]] = o1[2]] EXCEPT ![o2[1]] = o2[2]] : k \in {"audio", "video"}, o1 \in AnsOverride, o2 \in AnsOverride}
+AnsSample == RandomSubset(NSec, AnsNear) \cup {Base("application")}
+AnswerVec == [kind : {"sdp"}, secs : UNION {[1..k -> AnsSample] : k \in 1..2},
+           sem : {"unified", "planb", "fallback"}, me : {"both", "audioonly", "videoonly"},
+           bundle : {"ok"}, fp : {"session", "media"},
+           follow : {"none"}, phase : {"first", "connected"}, type : {"answer", "pranswer"}, mirror : {TRUE}]
+\* every single defect class of an answered media section, on an established connection: all of them, not a sample
+AnswerOne == [kind : {"sdp"}, secs : {<<x>> : x \in AnsOne},
+           sem : {"unified", "planb"}, me : {"both"}, bundle : {"ok"}, fp : {"session"},
+           follow : {"none"}, phase : {"connected"}, type : {"answer"}, mirror : {TRUE}]
 
 CandVec == [kind : {"cand"},
             foundation : {"ok", "empty", "long"}, component : {"1", "0", "256", "x"}, proto : {"udp", "tcp", "xyz", "UDP"},
@@ -55,8 +71,10 @@ CandVec == [kind : {"cand"},
             typ : {"host", "srflx", "relay", "bogus", "missing"}, tail : {"none", "raddr", "raddr-noport", "tcptype", "ufrag", "dangling-key", "generation-x"},
             mid : {"ok", "nil", "unknown"}, line : {"0", "nil", "999"}, prefix : {"candidate:", "a=candidate:", ""}]
 
-Init == \/ vec \in RandomSubset((NVec * 7) \div 10, GoodSdpVec)
-        \/ vec \in RandomSubset((NVec * 3) \div 10, SdpVec)
+Init == \/ vec \in RandomSubset((NVec * 5) \div 10, GoodSdpVec)
+        \/ vec \in RandomSubset((NVec * 2) \div 10, SdpVec)
+        \/ vec \in RandomSubset((NVec * 3) \div 10, AnswerVec)
+        \/ vec \in AnswerOne
         \/ vec \in RandomSubset(NCand, CandVec)
 Next == UNCHANGED vec
 \* the contract, as far as the model can state it: every vector has a defined outcome class
